@@ -78,6 +78,7 @@ ResidOK(r) ==
   /\ r.disabled = Cardinality(disabled)
   /\ r.notebook = (IF notebook THEN 1 ELSE 0)
   /\ r.modules = Cardinality(DOMAIN modules)
+  /\ ("flagsChanged" \in DOMAIN r => r.flagsChanged = 0)     \* the scan flags are the caller's: a scan leaves them as set
 
 \* the call returned: result code and the projected scanner state must be the model's
 TRet ==
